@@ -260,7 +260,8 @@ def tts_cases(draw):
     n = len(pts)
     return dict(layout=lay, points=pts, ncomp=draw(st.integers(1, 3)), weights=draw(st.sampled_from(["none", "given"])), blocked=draw(st.booleans()),
                 seed=draw(st.integers(0, 10**6)), test_size=draw(st.sampled_from([0.1, 0.25, 0.5, 2])), shape=draw(st.sampled_from(blocks.shape_options(n))),
-                extra=draw(st.booleans()), orders=draw(build.orders_strategy()), container=draw(st.sampled_from(build.CONTAINERS)))
+                extra=draw(st.booleans()), orders=draw(build.orders_strategy()), container=draw(st.sampled_from(build.CONTAINERS)),
+                train_size=draw(st.sampled_from([None, None, 0.6, 3])))
 
 
 def check_tts(case, ctx):
@@ -276,6 +277,9 @@ def check_tts(case, ctx):
     data = tuple(lay_(1000.0 * (c + 1) + rows, shape) for c in range(case["ncomp"]))
     weights = None if case["weights"] == "none" else tuple(lay_(0.001 * (c + 1) + rows + 1, shape) for c in range(case["ncomp"]))
     kw = dict(random_state=case["seed"], test_size=case["test_size"])
+    if case.get("train_size") is not None:
+        kw = dict(random_state=case["seed"], train_size=case["train_size"])
+        # (train_size and test_size both given and summing to less than the whole is a request for non-complementary subsets: outside the property)
     mem = None
     if case["blocked"]:
         bkw = blocks.verde_kwargs(lay)
